@@ -61,6 +61,8 @@ def render(node):
 
     if isinstance(node, declast.Declaration):
         return node.gen_decl()
+    if isinstance(node, list):  # the parameter list of a fortran_generic decl
+        return "( " + " , ".join(d.gen_decl() for d in node) + " )"
     if isinstance(node, declast.Namespace):
         return "namespace " + node.name
     if isinstance(node, declast.CXXClass):
@@ -159,13 +161,18 @@ def _alarm(signum, frame):
     raise Hang()
 
 
-def parse_one(text, lib, stats, bad, limit=40):
+def parse_one(text, lib, stats, bad, limit=40, entry="decl"):
     """Parse with the real parser; classify; apply the oracles. Returns the outcome class."""
-    from shroud import declast
+    from shroud import ast, declast
 
     signal.alarm(5)
     try:
-        node = declast.check_decl(text, namespace=lib)
+        if entry == "generic":
+            g = ast.FortranGeneric(text)
+            g.parse_generic(lib)
+            node = g.decls
+        else:
+            node = declast.check_decl(text, namespace=lib)
         out = "accepted"
     except Hang:
         out = "hang"
@@ -225,6 +232,31 @@ def tokens_shard(args):
             continue
         cnt += 1
         parse_one(" ".join(combo), lib, stats, bad)
+    return cnt, stats, bad
+
+
+GENERIC_ALPHABET = ["(", ")", ",", "int", "double", "x", "y", "*", "const", "+intent(in)", "=", "1"]
+
+
+def generic_shard(args):
+    """Every token string up to length n handed to the parser of a fortran_generic 'decl'."""
+    n, shard, nshards = args
+    from shroud import typemap
+
+    typemap.initialize()
+    lib = make_namespace()
+    signal.signal(signal.SIGALRM, _alarm)
+    stats, bad = {}, {}
+    cnt = 0
+    for k in range(0, n + 1):
+        for idx, combo in enumerate(itertools.product(GENERIC_ALPHABET, repeat=k)):
+            if idx % nshards != shard:
+                continue
+            cnt += 1
+            text = " ".join(combo)
+            out = parse_one(text, lib, stats, bad, entry="generic")
+            if out == "accepted" and (not combo or combo[0] != "(" or combo[-1] != ")"):
+                _add(bad, 40, "generic accepted-not-a-parameter-list", text, "fortran_generic decl %r accepted although it is not one parenthesised parameter list" % text)
     return cnt, stats, bad
 
 
@@ -528,6 +560,23 @@ def run(ctx):
             merge(ctx, "tokens", stats, bad)
             ctx.part("tokens " + label, strings=cnt, max_len=n, alphabet=len(alphabet))
     ctx.sample({"token_string": "int ( * a ) ( const int & , ["})
+    # ---- (1b) the second parser entry point: the 'decl' of a fortran_generic entry
+    gmax = 5 if quick else 6
+    res = isolate.pmap(generic_shard, [(gmax, s_, nsh) for s_ in range(nsh)], W)
+    cnt = sum(r[0] for r in res)
+    ctx.count(states=cnt, transitions=cnt, validated=cnt)
+    ctx.nontrivial_n(cnt)
+    stats, bad = {}, {}
+    for r in res:
+        for a, b in r[1].items():
+            stats[a] = stats.get(a, 0) + b
+        for key, (m, text, what) in r[2].items():
+            lst = bad.setdefault(key, [0, text, what])
+            lst[0] += m
+            if len(text) < len(lst[1]):
+                lst[1], lst[2] = text, what
+    merge(ctx, "generic", stats, bad)
+    ctx.part("tokens fortran_generic", strings=cnt, max_len=gmax, alphabet=len(GENERIC_ALPHABET), outcomes=stats)
     # ---- (2)+(3) mutations of valid declarations
     level = 1 if quick else 2
     res = isolate.pmap(mutation_shard, [(level, s, nsh) for s in range(nsh)], W)
